@@ -249,6 +249,20 @@ def oracle(c):
             peps = [stop_spec(c["id"], s, eff, inc, ok, pad="-" if kind in (4, 7) else "") for s in seqs]
             out.append(REJECT if REJECT in peps else peps)
         return out
+    if k == "viewops":
+        # complement_string / reverse o complement_string / Python slicing of what str() showed before
+        t, m, out = c["s"], c["m"], []
+        if any(comp_sym(m, ch) is None for ch in t):
+            return None
+        for op in c["ops"]:
+            if op == "rc":
+                t = "".join(comp_sym(m, ch) for ch in reversed(t))
+            elif op == "comp":
+                t = "".join(comp_sym(m, ch) for ch in t)
+            else:
+                t = t[op[0]:op[1]]
+            out.append(t)
+        return out
     if k in ("complement", "rc", "rc2", "seqrc"):
         s, m = c["s"], c["m"]
         comp = [comp_sym(m, ch) for ch in s]
@@ -378,6 +392,9 @@ def coq_terms(c) -> list:
         if c["kind"] in NEW_KINDS and is_long(c):
             t += [("d", f"CGetTrans true false {a}"), ("xd", f"CGetTrans false false {a}")]
         return t
+    if k == "viewops":
+        ops = ";".join("ORc" if o == "rc" else "OComp" if o == "comp" else f"OSlice {zlit(o[0])} {zlit(o[1])}" for o in c["ops"])
+        return [("", f"CViewOps {V(c['v'])} {M(c['m'])} {zstr(c['s'])} [{ops}]")]
     if k == "complement":
         return [("", f"CComplement {V(c['v'])} {M(c['m'])} {zstr(c['s'])}")]
     if k == "rc":
@@ -571,6 +588,15 @@ def exhaustive_block(tier, widen=False):
                 cases.append(dict(k="resolve", v=v, m=m, motif=ch, block="symbols"))
             cases.append(dict(k="seqrc", v=v, m=m, s=DGA[m], block="symbols"))
             cases.append(dict(k="seqrc", v=v, m=m, s=(DGA[m] * 60)[:1000], block="symbols"))
+            # complement / rc / slices of sequences that are ALREADY views (pending reverse complement), every symbol
+            basic = ["rc", "comp", [2, 13], [-11, -1]]
+            for n_ops in (1, 2, 3):
+                for ops in itertools.product(basic, repeat=n_ops):
+                    if n_ops == 3 and tier != "thorough" and not (ops[0] == "rc" or ops[1] == "rc"):
+                        continue
+                    cases.append(dict(k="viewops", v=v, m=m, s=DGA[m], ops=list(ops), block="seq-views"))
+            cases.append(dict(k="viewops", v=v, m=m, s=DGA[m], ops=["rc", "rc", "comp", "rc", [1, 9], "rc", "comp", "comp", [0, 40], "rc"],
+                              block="seq-views"))
             cases.append(dict(k="rc2", v=v, m=m, s=(DGA[m][:4] * 70)[:257], block="symbols"))
             cases.append(dict(k="rc", v=v, m=m, s=DGA[m], block="symbols"))
             pairs = itertools.product(DGA[m], repeat=2)
@@ -754,6 +780,14 @@ def random_block(rng, n, maxlen):
             s = "".join(rng.choice(al if rng.random() < 0.5 else al[:4]) for _ in range(rng.choice([0, 1, 2, 3, 5, 8, 13, 30])))
             if rng.random() < 0.1:
                 s += rng.choice("XZ*acgu ")
+            if rng.random() < 0.45 and s and all(ch in al for ch in s):
+                ops = []
+                for _ in range(rng.randint(1, 6)):
+                    r2 = rng.random()
+                    ops.append("rc" if r2 < 0.4 else "comp" if r2 < 0.75 else
+                               sorted([rng.randint(-len(s) - 2, len(s) + 2), rng.randint(-len(s) - 2, len(s) + 2)]))
+                cases.append(dict(k="viewops", v=v, m=m, s=s, ops=ops, block="random"))
+                continue
             kk = rng.choice(["complement", "rc", "rc2", "seqrc"])
             if kk == "seqrc" and not all(ch in al for ch in s):
                 kk = "rc"
@@ -878,6 +912,14 @@ def classify(c, bad_idx=None):
         return gettrans_key(c, bad_idx, None)
     if k in ("complement", "rc", "rc2", "seqrc", "resolve", "degen"):
         return f"{k}:{c['v']}:{c['m']}"
+    if k == "viewops":
+        i = bad_idx[0] if bad_idx else 0
+        op = c["ops"][i] if i < len(c["ops"]) else "?"
+        rev = False
+        for o in c["ops"][:i]:
+            rev = (not rev) if o == "rc" else False if o == "comp" else rev
+        state = "reversed-view" if rev else "plain-view"
+        return f"seq-view:{c['v']}:{c['m']}:{'slice' if isinstance(op, list) else op}-on-{state}"
     if k == "what":
         return f"what_ambiguity:old:{c['m']}"
     if k == "app_translate_seqs":
@@ -1081,7 +1123,7 @@ def nontrivial(c) -> bool:
         return True
     if k == "gettrans":
         return any("TAA" in s or "TGA" in s or "TAG" in s or "AGA" in s for s in c["seqs"])
-    if k in ("complement", "rc", "rc2", "seqrc"):
+    if k in ("complement", "rc", "rc2", "seqrc", "viewops"):
         return any(ch in "ACGTURYKMBDHV" for ch in c["s"])
     if k == "resolve":
         return any(ch in "NRYWSKMBDHV?" for ch in c["motif"])
@@ -1167,7 +1209,8 @@ def run(tier: str, seed: int) -> int:
         exhaustive_scope="every code x 64 codons x old/new x plus/minus; every DNA string of length <= "
                          f"{6 if tier == 'thorough' else 4} x 6 frames x old/new; lengths 764..773 (254..257 codons per frame) x "
                          "6 frames x every translation entry point (thorough: 65535/65536 codons); every printable symbol x 4 "
-                         "complement tables; "
+                         "complement tables; every chain of <= 2 (thorough: 3) operations rc / complement / [a:b] on sequence objects "
+                         "holding all 17 symbols x old/new x DNA/RNA (complement and rc of views that are already reversed / sliced); "
                          "every IUPAC symbol / base set x old/new x DNA/RNA; random block sampled",
         partial=["collection-level get_translation (old and new) is proved row-wise for canonical rows of any length; old "
                  "Alignment/ArrayAlignment is proved for rows of codon-aligned triplets (codons of bases or '---') of equal "
